@@ -4,6 +4,9 @@ import BU.Gen.Tables
 import BU.Spec.Script
 import BU.Spec.Disasm
 import BU.Model.Script
+import BU.Proofs.PyLemmas
+import BU.Proofs.ScriptLemmas
+import BU.Properties.C18
 /-!
 # C02 — script assembly emits canonical bytes and disassembly inverts it
 
@@ -40,7 +43,7 @@ def TablesOK (T : Tables) : Bool :=
 
 /-- **T-tie**: the generated tables are sound w.r.t. the consensus numbering and mutually inverse -/
 theorem tables_ok : TablesOK genTables = true := by
-  sorry
+  decide +kernel
 
 /-- **T-tie**: the push-form selector is the minimal push, for every length; ≥ 2^32 bytes are refused -/
 theorem op_push_data_eq_spec (d : Bytes) : Gen.op_push_data d = opPushData d := by
